@@ -85,6 +85,7 @@ class Sim(object):
         self.fail_fast = None             # signature that cut the run
         self.line_mute = False
         self.pollers = 0
+        self.poisoned = False
 
     # ------------------------------------------------------------ logging
     def log(self, kind, detail=None):
@@ -385,22 +386,78 @@ class Sim(object):
             runnable[c].sem.release()
         except SimAbort:
             pass
-        if not self.finished.wait(wall_timeout):
-            # cut the run; report as harness error (hang in real time)
+        done = self.finished.wait(wall_timeout)
+        slices = 0
+        while not done and slices < 6:
+            # still making simulated progress (slow machine, long run)?
+            before = self.steps
+            done = self.finished.wait(wall_timeout / 3.0)
+            slices += 1
+            if not done and self.steps == before:
+                break
+        if not done:
+            # The run hangs in REAL time.  If the thread holding the baton is
+            # busy inside library code that has no yield point (an endless
+            # pure-Python loop), that is a finding about the library (the
+            # thread neither terminates nor blocks), not a harness failure.
+            stuck = self._stuck_in_library()
             self.aborting = True
             if self.end_state is None:
-                self.end_state = 'wall-timeout'
+                self.end_state = 'real-hang' if stuck else 'wall-timeout'
+                self.end_detail = stuck
             for t in self.threads:
                 t.sem.release()
                 t.sem.release()
-            self.finished.wait(5.0)
+            self.finished.wait(2.0 if stuck else 5.0)
         for t in self.threads:
-            t.os_thread.join(5.0)
+            t.os_thread.join(0.2 if self.end_state == 'real-hang' else 5.0)
             if t.os_thread.is_alive():
-                self.harness_error = (self.harness_error or '') + \
-                    ' leaked OS thread %s' % t.name
+                if self.end_state == 'real-hang':
+                    self.poisoned = True     # worker must exit after this
+                else:
+                    self.harness_error = (self.harness_error or '') + \
+                        ' leaked OS thread %s' % t.name
         if self.end_state == 'wall-timeout':
             self.harness_error = (self.harness_error or '') + ' wall-timeout'
+
+    def _stuck_in_library(self):
+        """If the running simulated thread sits in repository code (not in a
+        simulator primitive), return 'file:function:line' of its innermost
+        repository frame; sampled twice to exclude a thread that is merely
+        slow."""
+        import sys
+        import os
+        import time
+        root = os.path.realpath(os.environ.get('VERIF_REPO', '/repo'))
+        here = os.path.dirname(os.path.abspath(__file__))
+
+        def sample():
+            cur = self.current
+            if cur is None or cur.os_thread is None:
+                return None
+            fr = sys._current_frames().get(cur.os_thread.ident)
+            if fr is None:
+                return None
+            inner = fr
+            # innermost frame must not be a simulator primitive
+            if os.path.abspath(inner.f_code.co_filename).startswith(here):
+                return None
+            f = fr
+            while f is not None:
+                fn = os.path.realpath(f.f_code.co_filename)
+                if fn.startswith(root + os.sep):
+                    return '%s:%s' % (os.path.relpath(fn, root),
+                                      f.f_code.co_name), cur.steps
+                f = f.f_back
+            return None
+        a = sample()
+        if a is None:
+            return None
+        time.sleep(1.0)
+        b = sample()
+        if b is None or b[1] != a[1]:
+            return None          # it is making simulated progress
+        return b[0]
 
 
 def hash_small(obj):
